@@ -34,7 +34,7 @@ CHUNK = 4
 PROBES = ["split_1n1", "empty_write", "multi_record_write", "limit_hit",
           "padding_seen", "read_max_lt_buffered", "rsl_negotiated",
           "user_recordsize", "etm", "tls13", "sslv3", "null_cipher",
-          "resumed"]
+          "resumed", "zero_length_read", "buffer_reused"]
 COMPONENTS_REAL = ["tlslite record layer, TLSRecordLayer read/write paths, "
                    "handshake, all pure-Python ciphers/MACs"]
 COMPONENTS_STUB = ["socket (FakeSocket/Pipe)", "os.urandom (per-node PRNG)",
@@ -108,13 +108,33 @@ def draw_script(ch, sc):
     one_cap = 1500 if slow else 50000
     nops = 3 + ch.draw(12, "op.n")
     out = []
+    sent = {"c": [], "s": []}        # (offset, n) of every write, in order
     wrote = {"c": 0, "s": 0}
     guaranteed = {"c": 0, "s": 0}
     rsize = {"c": 16384, "s": 16384}
     for _ in range(nops):
         who = "cs"[ch.draw(2, "op.who")]
         peer = "s" if who == "c" else "c"
-        k = ch.draw(10, "op.kind")
+        k = ch.draw(12, "op.kind")
+        if k == 10:
+            # the documented idiom for "process pending control messages":
+            # a zero-length read; it must not consume application data
+            # (it waits for one record when nothing is buffered, so it is
+            # only issued while unread data is on its way)
+            if guaranteed[who] > 0:
+                out.append([who, "read", 0, 0])
+            continue
+        if k == 11:
+            # the application sends the SAME bytearray object again
+            prev = [c for c in sent[who] if 0 < c[1] <= 2 ** 14 + 1]
+            if not prev or wrote["c"] + wrote["s"] > total_cap:
+                continue
+            off, n = prev[ch.draw(len(prev), "op.again")]
+            out.append([who, "write", off, n])
+            sent[who].append((off, n))
+            wrote[who] += n
+            guaranteed[peer] += n
+            continue
         if k <= 4:
             n = scen.draw_len(ch, "op.len", cap=one_cap, record=rsize[who],
                               block=s.block or 16)
@@ -123,7 +143,9 @@ def draw_script(ch, sc):
             # tiny recordSize with big payloads = thousands of records
             if rsize[who] < 64:
                 n = min(n, 300)
-            out.append([who, "write", wrote[who], n])
+            off = max([c[0] + c[1] for c in sent[who]] or [0])
+            out.append([who, "write", off, n])
+            sent[who].append((off, n))
             wrote[who] += n
             guaranteed[peer] += n
         elif k <= 7:
@@ -142,8 +164,9 @@ def draw_script(ch, sc):
             out.append([who, "recordsize", v])
             rsize[who] = v
         else:
-            out.append([who, "write", wrote[who], 0])
-    return out, wrote
+            out.append([who, "write",
+                        max([c[0] + c[1] for c in sent[who]] or [0]), 0])
+    return out, wrote, sent
 
 
 def limit_in_force(sc, sender):
@@ -181,7 +204,9 @@ def run(job, streams=None):
     ch = kernel.Chooser(seed=seed) if streams is None else \
         kernel.Chooser(streams=streams)
     sc = draw_config(ch, job.get("cell"))
-    script, wrote = draw_script(ch, sc)
+    script, wrote, sent_chunks = draw_script(ch, sc)
+    stream = {w: b"".join(scen.payload(1 if w == "c" else 2, off, n)
+                          for off, n in sent_chunks[w]) for w in "cs"}
     suite = scen.all_suites()[sc["suite"]]
     ver = tuple(sc["version"])
     sim = nodes.new_run(seed, chooser=ch, max_steps=400000)
@@ -263,12 +288,27 @@ def run(job, streams=None):
             pair.s.conn._recordLayer.padding_cb = \
                 nodes.PADDING_CBS[sc["sset"].get("padding_cb")]
 
+        bufs = {}
+        reused = set()
+
         def op_gen(ep, op):
             conn = ep.conn
             if op[1] == "write":
-                data = scen.payload(1 if ep.name == "c" else 2, op[2], op[3])
+                # the application owns its buffers: the same bytearray
+                # object is handed in whenever the same chunk is sent again
+                k_ = (ep.name, op[2], op[3])
+                if k_ not in bufs:
+                    bufs[k_] = bytearray(scen.payload(
+                        1 if ep.name == "c" else 2, op[2], op[3]))
+                else:
+                    probes["buffer_reused"] = 1
+                data = bufs[k_] if op[2] % 2 == 0 or k_ in reused else \
+                    bytes(bufs[k_])
+                reused.add(k_)
                 return lambda: conn.writeAsync(data)
             if op[1] == "read":
+                if op[2] == 0:
+                    probes["zero_length_read"] = 1
                 return lambda: conn.readAsync(op[2], op[3])
             if op[1] == "recordsize":
                 def setrs():
@@ -308,7 +348,7 @@ def run(job, streams=None):
         # ---- FIFO oracle
         for w in "cs":
             peer = "s" if w == "c" else "c"
-            want_all = scen.payload(1 if peer == "c" else 2, 0, wrote[peer])
+            want_all = stream[peer]
             pos = 0
             for o in eps[w].history[1:]:
                 if o.kind == "exc":
